@@ -104,6 +104,10 @@ def templates(tier="quick"):
     v = Variant("v0", [Stmt("lib", ex=["a.o", "b.o"], rsp=("lib.rsp", "a.o b.o")), Stmt("exe", ex=["lib"])])
     v1 = Variant("v1", [Stmt("lib", ex=["a.o", "b.o"], rsp=("lib.rsp", "a.o b.o --extra")), Stmt("exe", ex=["lib"])])
     T += _mk("rspfile", [v, v1], tags=["rspfile"], depth=d)
+    # T13b response file whose declared content is empty (and becomes empty after having been non-empty)
+    v2 = Variant("v2", [Stmt("lib", ex=["a.o", "b.o"], rsp=("lib.rsp", "")), Stmt("exe", ex=["lib"])])
+    T += _mk("rspfile_empty", [v2, v], tags=["rspfile"], depth=d)
+    T += _mk("rspfile_becomes_empty", [v, v2], tags=["rspfile"], depth=d)
 
     # T14 outputs in subdirectories that do not exist yet
     v = Variant("v0", [Stmt("out/a/x.o", ex=["s"], hidden=["h"], depfile=True), Stmt("out/bin/exe", ex=["out/a/x.o"])])
@@ -177,11 +181,33 @@ def templates(tier="quick"):
     # already running, already delayed by its pool, or already done (the discovered producer was ready at the start)
     from family_cycles import dyndep_text
     for pname, pools, pool in (("none", {}, ""), ("depth1", {"pp": 1}, "pp"), ("depth2", {"pp": 2}, "pp"), ("console", {}, "console")):
-        dd = dyndep_text([("out", [], ["x"], False)])
+        # (the plain variant also spells the discovered input in a non-canonical way)
+        dd = dyndep_text([("out", [], ["./sub/../x" if pname == "none" else "x"], False)])
         v = Variant("v0", [Stmt("dd", ex=["dd.in"], copy=True), Stmt("x", ex=["s"], pool=pool), Stmt("w", ex=["t"], pool=pool),
                            Stmt("out", ex=["in"], oo=["dd"], dyndep="dd", extra_reads=["x"]), Stmt("top", ex=["out", "w"])],
                     pools=pools)
         T += _mk("dyndep_pool_" + pname, [v], tags=["dyndep", "pool"], depth=min(d, 3), js=(2, 4), files={"dd.in": dd},
                  max_fault_stmts=2, edits_during=False, touch_only=("dd.in",))
+
+    # T23 a depfile consumer that depends only order-only on a restat producer, and whose depfile gets lost
+    # (deleted by hand, or by a failing compiler): missing dependency information must force a rebuild even
+    # when the restat producer re-runs without rewriting its output in the same invocation
+    for kind, kw in (("depfile", {"depfile": True}), ("gcc", {"deps": "gcc"})):
+        v = Variant("v0", [Stmt("gen", ex=["tmpl"], restat=True),
+                           Stmt("obj", ex=["src"], oo=["gen"], hidden=["hdr"], **kw), Stmt("exe", ex=["obj"])])
+        files = {}
+        ops = standard_ops([v], files, js=(1, 2), touch=True, rm_depfiles=True, ks=(1,), edits_during=False, max_fault_stmts=2)
+        bi = next(i for i, o in enumerate(ops) if o["op"] == "ninja")
+        T.append(scenario("restat_oo_%s/built" % kind, "template", [v], files=files, ops=ops, init=[bi], depth=d,
+                          tags=["restat", "order-only", kind, "built"]))
+        if kind == "depfile":
+            ri = next(i for i, o in enumerate(ops) if o["op"] == "rm" and o["path"] == "obj.d")
+            T.append(scenario("restat_oo_depfile/depfile_lost", "template", [v], files=files, ops=ops, init=[bi, ri], depth=d,
+                              tags=["restat", "order-only", "depfile", "lost-depfile"]))
+        else:
+            # the deps log itself is lost
+            ops2 = ops + [{"op": "rm", "path": ".ninja_deps", "label": "rm .ninja_deps"}]
+            T.append(scenario("restat_oo_gcc/depslog_lost", "template", [v], files=files, ops=ops2, init=[bi, len(ops2) - 1], depth=d,
+                              tags=["restat", "order-only", "gcc", "lost-depslog"]))
 
     return T
